@@ -61,15 +61,17 @@ Definition testU (fk : option nat) : ufuns :=
     (* condition helpers *)
     (fun name =>
        if bytes_eqb name (bs "isTrue") then
-         Some (fun _ a => match a with x :: _ => match val_text x with Some t => bytes_eqb t (bs "true") | None => false end | [] => false end)
+         Some (fun n a => if fails fk n then (false, Some (EUser n)) else
+                 (match a with x :: _ => match val_text x with Some t => bytes_eqb t (bs "true") | None => false end | [] => false end, None))
        else if bytes_eqb name (bs "ns::eq") || bytes_eqb name (bs "eq") then
-         Some (fun _ a => match a with
-                          | x :: y :: _ => match val_text x, val_text y with
-                                           | Some s, Some t => bytes_eqb s t
-                                           | _, _ => false
-                                           end
-                          | _ => false
-                          end)
+         Some (fun n a => if fails fk n then (false, Some (EUser n)) else
+                 (match a with
+                  | x :: y :: _ => match val_text x, val_text y with
+                                   | Some s, Some t => bytes_eqb s t
+                                   | _, _ => false
+                                   end
+                  | _ => false
+                  end, None))
        else None)
     (* cond-OK helpers *)
     (fun name =>
